@@ -24,6 +24,7 @@ def specs(tier):
         # the connection to a read-only node breaks inside the leader's send call (several messages per call: chunks)
         J('pending2+1-b8-sendfault:H1X1', 'pending', dict(n=2, observers=1, batch_bytes=8, send_faults=True), dict(H=1, X=1), dict(unrep=1),
           extra_monitors=(MONS[0], ('mc.monitors', 'ExceptionMonitor', dict(prop='C18')))),
+        J('fresh2+1-nowait:S1E1H1', 'fresh', dict(n=2, observers=1, wait_leader=False), dict(S=1, E=1, H=1)),
         J('fresh2+3:E1', 'fresh', dict(n=2, observers=3), dict(E=1)),
     ]
     if not q:
